@@ -1,3 +1,4 @@
+\* X02 concurrent cases, seeded random: sequential prefix (with deadlines and ticks) then par steps
 INIT BInit
 NEXT SNext
 CONSTANTS
